@@ -202,9 +202,17 @@ def rule_rt9(A: Analysis, rep, rt_var="record_type"):
     sp = spawns[0]
     mod = fi.module
     handlers = {}
+    pairs_ = []
     for s in walk_local(fi.node):
-        if isinstance(s, ast.Assign) and isinstance(s.value, ast.Call) and A.res.is_call_to(s.value, "conductor.utils.output_handler.OutputHandler"):
-            c = s.value
+        if isinstance(s, ast.Assign) and len(s.targets) == 1:
+            if isinstance(s.targets[0], (ast.Tuple, ast.List)) and isinstance(s.value, (ast.Tuple, ast.List)) and len(s.targets[0].elts) == len(s.value.elts):
+                pairs_.extend(zip(s.targets[0].elts, s.value.elts))     # `out, err = (OutputHandler(..), OutputHandler(..))`
+            else:
+                pairs_.append((s.targets[0], s.value))
+    for (tg_, val_) in pairs_:
+        if isinstance(val_, ast.Call) and A.res.is_call_to(val_, "conductor.utils.output_handler.OutputHandler"):
+            c = val_
+            s = ast.Assign(targets=[tg_], value=val_)
             p = c.args[0]
             fname = None
             if isinstance(p, ast.BinOp) and isinstance(p.op, ast.Div) and norm(p.left) == "self._output_path":
